@@ -25,6 +25,9 @@ import (
 //   reset <minDur> <fee> <allowed a,b|-> <nActors> <nDenoms> <feeDenom> <probes p,q,…>
 //   fund <a> <d> <amt> | lock <a> <d> <amt> <dur> | unlock <a> <id> (-|<d> <amt>) | extend <a> <id> <dur>
 //   force <a> <id> (-|<d> <amt>) | begin <dt> | end
+//   restart                                  export of the whole application state, production InitChainer on a
+//                                            fresh application, the trace continues THERE (chain restart)
+//   setparams <minDur> <fee> <allowed a,b|-> the lockup params written through the keeper's SetParams (params subspace)
 // Every op is executed on the real application (message router / Begin-EndBlocker of the full app);
 // the observation is rendered from keeper queries (by id, by account, accumulation, bank balances).
 // The monitors below use only observations of the real system plus their own bookkeeping of *when the
@@ -33,6 +36,11 @@ import (
 const (
 	c14Sec = int64(time.Second)
 	c14Day = 24 * int64(time.Hour)
+	// generator mix: a restart is a whole export + InitChainer of a fresh application (two orders of
+	// magnitude dearer than a message), hence per mille
+	c14RestartPerMille   = 30
+	c14SetParamsPerMille = 25
+	c14DirectedPct       = 20
 )
 
 type c14Lock struct {
@@ -68,6 +76,7 @@ type c14H struct {
 	fee     int64
 	minDur  int64
 	allowed map[int]bool
+	allowL  []int // the allow-list in the order the keeper returns it
 	probes  []int64
 	modAddr sdk.AccAddress
 	trace   []string
@@ -262,9 +271,58 @@ func (h *c14H) render(out string) string {
 			U = append(U, strconv.FormatUint(id, 10))
 		}
 	}
-	return fmt.Sprintf("%s L=%s last=%d M=%s B=%s Q=%s A=%s S=%s W=%s O=%s U=%s t=%d h=%d", out, c14Join(L, ","), last, c14Join(M, ","),
+	// the parameters in force, as the keeper returns them
+	pr := h.k.GetParams(ctx)
+	var al []string
+	for _, a := range pr.ForceUnlockAllowedAddresses {
+		al = append(al, strconv.Itoa(h.actorOf(a)))
+	}
+	P := fmt.Sprintf("%d:%s:%s", int64(pr.MinLockDuration), pr.LockCreationFee.String(), c14Join(al, ","))
+	// two walks of the lock-reference indexes: GetPeriodLocks in the order it returns (= the order of the
+	// exported genesis: not-unlocking by (duration, id), then unlocking), and the EndBlocker's own
+	// iterator over the end-time references (ids, sorted)
+	var G, I []string
+	if all, err := h.k.GetPeriodLocks(ctx); err == nil {
+		for _, pl := range all {
+			G = append(G, strconv.FormatUint(pl.ID, 10))
+		}
+	}
+	for _, id := range h.maturedByIterator(ctx) {
+		I = append(I, strconv.FormatUint(id, 10))
+	}
+	return fmt.Sprintf("%s L=%s last=%d M=%s B=%s Q=%s A=%s S=%s W=%s O=%s U=%s t=%d h=%d P=%s G=%s I=%s", out, c14Join(L, ","), last, c14Join(M, ","),
 		c14Join(B, ";"), c14Join(Q, ";"), c14Join(A, ";"), c14Join(S, ","), c14Join(W, ";"), c14Join(O, ";"), c14Join(U, "."),
-		int64(h.f.Time.Sub(BaseTime)), h.f.Height)
+		int64(h.f.Time.Sub(BaseTime)), h.f.Height, P, c14Join(G, "."), c14Join(I, "."))
+}
+
+// maturedByIterator walks LockIteratorBeforeTime(block time) — the iterator WithdrawAllMaturedLocks uses —
+// and returns the referenced lock ids, ascending.
+func (h *c14H) maturedByIterator(ctx sdk.Context) []uint64 {
+	it := h.k.LockIteratorBeforeTime(ctx, h.f.Time)
+	defer it.Close()
+	ids := []uint64{}
+	for ; it.Valid(); it.Next() {
+		ids = append(ids, sdk.BigEndianToUint64(it.Value()))
+	}
+	sort.Slice(ids, func(i, j int) bool { return ids[i] < ids[j] })
+	return ids
+}
+
+// readParams re-observes the lockup parameters in force (after a restart the module has written its
+// defaults; after setparams whatever the subspace accepted).
+func (h *c14H) readParams() {
+	p := h.k.GetParams(h.f.Ctx)
+	h.minDur = int64(p.MinLockDuration)
+	if p.LockCreationFee.IsNil() || !p.LockCreationFee.IsInt64() {
+		h.r.T.Fatalf("lock creation fee out of the harness's range: %v", p.LockCreationFee)
+	}
+	h.fee = p.LockCreationFee.Int64()
+	h.allowed, h.allowL = map[int]bool{}, nil
+	for _, a := range p.ForceUnlockAllowedAddresses {
+		i := h.actorOf(a)
+		h.allowed[i] = true
+		h.allowL = append(h.allowL, i)
+	}
 }
 
 func c14CSV(s string) []int64 {
@@ -360,6 +418,7 @@ func (h *c14H) exec(line string) string {
 		if int64(p.MinLockDuration) != h.minDur || !p.LockCreationFee.Equal(math.NewInt(h.fee)) || len(p.ForceUnlockAllowedAddresses) != len(al) {
 			h.r.T.Fatalf("params not set: %+v", p)
 		}
+		h.readParams()
 		return "ok"
 	case "fund":
 		if len(f) != 4 {
@@ -438,6 +497,35 @@ func (h *c14H) exec(line string) string {
 			return "bad-op"
 		}
 		err = h.f.End()
+	case "restart":
+		// chain restart: ExportGenesis of every module on the live state, production InitChainer on a
+		// fresh application; everything after runs on the imported chain.  The lockup params are whatever
+		// lockup's InitGenesis wrote: re-observed, not re-set.
+		if len(f) != 1 {
+			return "bad-op"
+		}
+		f2, _, _, ierr := h.f.ImportedCopy()
+		if ierr != nil {
+			err = ierr
+		} else {
+			h.f, h.k = f2, f2.App.LockupKeeper
+			lastFix = f2
+			h.readParams()
+		}
+	case "setparams":
+		if len(f) != 4 || pi(1) < 0 || pi(2) < 0 {
+			return "bad-op"
+		}
+		var al []string
+		for _, a := range c14CSV(f[3]) {
+			al = append(al, h.addr(int(a)).String())
+		}
+		np := lockuptypes.NewParams(al, math.NewInt(pi(2)), time.Duration(pi(1)))
+		err = h.f.Try(func(ctx sdk.Context) error { h.k.SetParams(ctx, np); return nil })
+		h.readParams()
+		if err == nil && (h.minDur != pi(1) || h.fee != pi(2) || len(h.allowL) != len(al)) {
+			h.viol("C14/setparams/not-in-force", fmt.Sprintf("set %s, keeper returns %+v", line, h.k.GetParams(h.f.Ctx)))
+		}
 	default:
 		return "bad-op"
 	}
@@ -450,15 +538,15 @@ func (h *c14H) exec(line string) string {
 		op.out = "panic"
 	default:
 		op.out = "err:" + c14ErrClass(err)
-		if op.kind == "begin" || op.kind == "end" {
-			op.out = "panic" // an error out of Begin/EndBlocker halts the chain just as a panic does
+		if op.kind == "begin" || op.kind == "end" || op.kind == "restart" || op.kind == "setparams" {
+			op.out = "panic" // an error out of Begin/EndBlocker (or of the import) halts the chain just as a panic does
 		}
 	}
 	post := h.takeSnap()
 	h.snap = post
 	h.monitor(op, pre, post, err)
 	h.kinds = append(h.kinds, op.kind+"/"+op.out[:strings.IndexAny(op.out+":", ":")]+c14Sub(op, pre))
-	if op.ok && op.kind != "begin" && op.kind != "end" {
+	if op.ok && op.kind != "begin" && op.kind != "end" && op.kind != "restart" && op.kind != "setparams" {
 		h.nontriv = true
 	}
 	return h.render(op.out)
@@ -494,11 +582,50 @@ func (h *c14H) sumLocks(s c14Snap, pred func(c14Lock) bool) math.Int {
 // monitor: the property's clauses evaluated on the implementation (model independent).
 func (h *c14H) monitor(op c14Op, pre, post c14Snap, err error) {
 	ctx, _ := h.f.Ctx.CacheContext() // discarded: see render
-	isMsg := op.kind != "begin" && op.kind != "end"
+	isAdmin := op.kind == "restart" || op.kind == "setparams"
+	isMsg := op.kind != "begin" && op.kind != "end" && !isAdmin
 	// --- block processing must not fail
-	if !isMsg && err != nil {
+	if !isMsg && !isAdmin && err != nil {
 		h.viol("C14/"+op.kind+"block/fails", err.Error())
 		return
+	}
+	// --- the exported state must be importable; a params change must be accepted
+	if isAdmin && err != nil {
+		h.viol("C14/"+op.kind+"/fails", trunc200(err.Error()))
+		return
+	}
+	// --- a restart / a params change moves no coin and touches no lock (every field of every lock is
+	//     compared by the per-lock monitors below: for these two op kinds ANY difference is a violation)
+	if isAdmin {
+		if post.last != pre.last {
+			h.viol("C14/"+op.kind+"/last-lock-id-changed", fmt.Sprintf("%d -> %d", pre.last, post.last))
+		}
+		same := pre.modAll.Equal(post.modAll) && len(pre.ids) == len(post.ids)
+		for a := 0; a < h.nA && same; a++ {
+			for d := 0; d < h.nD; d++ {
+				if !pre.bal[a][d].Equal(post.bal[a][d]) {
+					same = false
+				}
+			}
+		}
+		if !same {
+			h.viol("C14/"+op.kind+"/balances-or-lock-count-changed", fmt.Sprintf("module %s -> %s, locks %d -> %d", pre.modAll, post.modAll, len(pre.ids), len(post.ids)))
+		}
+		for _, id := range pre.ids {
+			l := pre.locks[id]
+			n, still := post.locks[id]
+			if !still {
+				h.viol("C14/"+op.kind+"/lock-lost", fmt.Sprintf("lock %d: %+v", id, l))
+			} else if l.id != n.id || l.owner != n.owner || l.dur != n.dur || l.unl != n.unl || l.end != n.end || l.denom != n.denom || !l.amt.Equal(n.amt) || l.ncoins != n.ncoins {
+				h.viol("C14/"+op.kind+"/lock-changed", fmt.Sprintf("lock %d: %+v -> %+v", id, l, n))
+			}
+		}
+		if op.kind == "setparams" && pre.digest != post.digest {
+			h.viol("C14/setparams/changed-lockup-store", "a params change wrote to the lockup store")
+		}
+		if post.now != pre.now || post.height != pre.height {
+			h.viol("C14/"+op.kind+"/clock-changed", fmt.Sprintf("t %d -> %d, h %d -> %d", pre.now, post.now, pre.height, post.height))
+		}
 	}
 	if isMsg && IsPanic(err) {
 		h.viol("C14/msg/"+op.kind+"-panics", err.Error())
@@ -591,6 +718,19 @@ func (h *c14H) monitor(op c14Op, pre, post c14Snap, err error) {
 		}
 		if fmt.Sprint(ids) != fmt.Sprint(want) {
 			h.viol("C14/index/by-account-query-differs", fmt.Sprintf("actor %d: GetAccountPeriodLocks %v, stored %v", a, ids, want))
+		}
+	}
+	// --- the end-time references (rebuilt by addLockRefs at begin-unlock and at import) name exactly the
+	//     unlocking locks whose end time has come
+	{
+		want := []uint64{}
+		for _, id := range post.ids {
+			if l := post.locks[id]; l.unl && l.end <= post.now {
+				want = append(want, id)
+			}
+		}
+		if got := h.maturedByIterator(ctx); fmt.Sprint(got) != fmt.Sprint(want) {
+			h.viol("C14/index/matured-iterator-differs", fmt.Sprintf("LockIteratorBeforeTime %v, stored %v", got, want))
 		}
 	}
 	// --- ids are never reused
@@ -1006,7 +1146,7 @@ func (g *c14Gen) genForce() {
 	a, sb := g.signer(l, 20)
 	if sb == "non-owner" && rng.Chance(60) {
 		// an authorised address trying somebody else's lock
-		for x := range h.allowed {
+		for _, x := range h.allowL {
 			if x != l.owner {
 				a, sb = x, "authorised-non-owner"
 				break
@@ -1057,6 +1197,209 @@ func (g *c14Gen) genBlock() {
 	}
 }
 
+// paramsLine renders a setparams line for the given values.
+func c14ParamsLine(min, fee int64, al []int) string {
+	var xs []string
+	for _, a := range al {
+		xs = append(xs, strconv.Itoa(a))
+	}
+	return fmt.Sprintf("setparams %d %d %s", min, fee, c14Join(xs, ","))
+}
+
+// genRestart: export -> InitChainer on a fresh application, the trace goes on there.  The import
+// resets the lockup params to the module defaults (fee 5*10^16): afterwards either governance sets the
+// old values again, or the actors are given enough of the fee denom to go on under the defaults.
+func (g *c14Gen) genRestart() {
+	h, rng := g.h, g.rng
+	sn := h.snap
+	nUnl, pair, split := 0, false, false
+	seen := map[[2]int64]int{}
+	for _, id := range sn.ids {
+		l := sn.locks[id]
+		if l.unl {
+			nUnl++
+			if _, ok := h.started[id]; ok && l.amt.IsPositive() {
+				split = true
+			}
+		}
+		k := [2]int64{int64(l.denom), l.dur}
+		seen[k]++
+		if seen[k] >= 2 {
+			pair = true
+		}
+	}
+	switch {
+	case len(sn.ids) == 0:
+		h.r.Hit("restart/no-locks")
+	case len(sn.ids) == 1:
+		h.r.Hit("restart/one-lock")
+	default:
+		h.r.Hit("restart/many-locks")
+	}
+	if nUnl > 0 {
+		h.r.Hit("restart/while-unlocking")
+	}
+	if pair {
+		h.r.Hit("restart/locks-sharing-denom-and-duration")
+	}
+	if split {
+		h.r.Hit("restart/after-split-or-begin-unlock")
+	}
+	oMin, oFee, oAl := h.minDur, h.fee, append([]int(nil), h.allowL...)
+	obs := g.emit("restart")
+	h.r.Hit("restart=>" + c14Res(obs))
+	if h.minDur != oMin || h.fee != oFee || len(h.allowL) != len(oAl) {
+		h.r.Hit("restart/params-reset-by-import")
+	}
+	if rng.Chance(60) {
+		g.emit(c14ParamsLine(oMin, oFee, oAl))
+		h.r.Hit("restart/then-params-restored")
+	} else {
+		for a := 0; a < h.nA; a++ {
+			if rng.Chance(70) && h.snap.bal[a][0].IsInt64() && h.snap.bal[a][0].Int64() < 4000000000000000000 {
+				g.emit(fmt.Sprintf("fund %d 0 %d", a, h.fee*int64(1+rng.Intn(6))+int64(rng.Intn(1000000))))
+			}
+		}
+		h.r.Hit("restart/then-default-params")
+	}
+}
+
+// genSetParams: a governance change of the lockup params mid-history, with the directed follow-ups of
+// the clauses: a removed owner's force-unlock, an existing lock below a raised minimum.
+func (g *c14Gen) genSetParams() {
+	h, rng := g.h, g.rng
+	min, fee, al := h.minDur, h.fee, append([]int(nil), h.allowL...)
+	var follow []string
+	switch rng.Intn(5) {
+	case 0: // raise the minimum above an existing lock's duration
+		if l, ok := g.pickLock(func(l c14Lock) bool { return !l.unl && l.dur < 1<<61 }); ok {
+			min = l.dur + 1 + int64(rng.Intn(3))*c14Sec
+			h.r.Hit("setparams/min-raised-above-existing-lock")
+			follow = append(follow, fmt.Sprintf("lock %d %d 1 %d", l.owner, l.denom, l.dur)) // top-up: now below the minimum
+			follow = append(follow, fmt.Sprintf("unlock %d %d -", l.owner, l.id))           // still unlocks
+			if rng.Chance(50) {
+				follow = append(follow, "end", fmt.Sprintf("begin %d", l.dur), "end")
+			}
+			break
+		}
+		fallthrough
+	case 1: // take an owner off the allow-list
+		if l, ok := g.pickLock(func(l c14Lock) bool { return h.allowed[l.owner] }); ok {
+			var na []int
+			for _, a := range al {
+				if a != l.owner {
+					na = append(na, a)
+				}
+			}
+			al = na
+			h.r.Hit("setparams/owner-removed-from-allow-list")
+			follow = append(follow, fmt.Sprintf("force %d %d -", l.owner, l.id))
+			break
+		}
+		fallthrough
+	case 2: // put an owner on the allow-list
+		if l, ok := g.pickLock(func(l c14Lock) bool { return !h.allowed[l.owner] }); ok {
+			al = append(al, l.owner)
+			h.r.Hit("setparams/owner-added-to-allow-list")
+			if rng.Chance(70) {
+				follow = append(follow, fmt.Sprintf("force %d %d -", l.owner, l.id))
+			}
+			break
+		}
+		fallthrough
+	case 3:
+		fee = []int64{0, 1, 7, 1000, 50000}[rng.Intn(5)]
+		h.r.Hit("setparams/fee-changed")
+		follow = append(follow, fmt.Sprintf("lock %d 0 %d %d", rng.Intn(h.nA), 1+rng.Intn(50), g.dur()))
+	default:
+		min = []int64{0, 1, 5, c14Sec, c14Day}[rng.Intn(5)]
+		al = nil
+		for a := 0; a < h.nA; a++ {
+			if rng.Chance(35) {
+				al = append(al, a)
+			}
+		}
+		h.r.Hit("setparams/all-random")
+	}
+	obs := g.emit(c14ParamsLine(min, fee, al))
+	h.r.Hit("setparams=>" + c14Res(obs))
+	for _, l := range follow {
+		obs = g.emit(l)
+		h.r.Hit("setparams/follow-up/" + strings.Fields(l)[0] + "=>" + c14Res(obs))
+	}
+}
+
+// directed: the histories the restart clauses are about — two or more locks with the SAME denom and the
+// SAME duration (the per-(denom, duration) accumulation entry InitializeAllLocks has to sum), a restart
+// while locks are unlocking, a restart right after a split — each followed by lock / unlock / extend /
+// maturity on the imported chain.
+func (g *c14Gen) directed() {
+	h, rng := g.h, g.rng
+	d := rng.Intn(h.nD)
+	dur := []int64{h.minDur, h.minDur + 1, c14Sec, c14Day, 7 * c14Day}[rng.Intn(5)]
+	if dur <= 0 {
+		dur = 1 + int64(rng.Intn(10))
+	}
+	a, b := 0, 1
+	for _, x := range []int{a, b} {
+		g.emit(fmt.Sprintf("fund %d 0 %d", x, 6*h.fee+100000))
+		if d != 0 {
+			g.emit(fmt.Sprintf("fund %d %d %d", x, d, 100000))
+		}
+	}
+	g.emit(fmt.Sprintf("lock %d %d %d %d", a, d, 100+rng.Intn(900), dur))
+	g.emit(fmt.Sprintf("lock %d %d %d %d", b, d, 50+rng.Intn(900), dur))
+	mine := func(o int, unl bool) func(c14Lock) bool {
+		return func(l c14Lock) bool { return l.owner == o && l.denom == d && l.dur == dur && l.unl == unl }
+	}
+	kind := rng.Intn(4)
+	switch kind {
+	case 0:
+		h.r.Hit("directed/same-denom-same-duration/two-owners")
+	case 1: // a third lock of the same (denom, duration): a's first one is unlocking, so the deposit opens a new lock
+		if l, ok := g.pickLock(mine(a, false)); ok {
+			g.emit(fmt.Sprintf("unlock %d %d -", a, l.id))
+			g.emit(fmt.Sprintf("lock %d %d %d %d", a, d, 10+rng.Intn(90), dur))
+		}
+		h.r.Hit("directed/same-denom-same-duration/three-locks-one-unlocking")
+	case 2: // restart while unlocking, part of the period elapsed
+		if l, ok := g.pickLock(mine(b, false)); ok {
+			g.emit(fmt.Sprintf("unlock %d %d -", b, l.id))
+			g.emit("end")
+			g.emit(fmt.Sprintf("begin %d", dur/2))
+		}
+		h.r.Hit("directed/restart-while-unlocking")
+	default: // restart right after a split
+		if l, ok := g.pickLock(mine(a, false)); ok && l.amt.IsInt64() && l.amt.Int64() > 1 {
+			g.emit(fmt.Sprintf("unlock %d %d %d %d", a, l.id, d, 1+rng.Intn(int(l.amt.Int64()-1))))
+		}
+		h.r.Hit("directed/restart-after-split")
+	}
+	g.genRestart()
+	// the imported chain goes on: deposit (top-up or new lock), begin-unlock, extend, maturity
+	g.emit(fmt.Sprintf("lock %d %d %d %d", a, d, 1+rng.Intn(50), dur))
+	if l, ok := g.pickLock(mine(b, false)); ok {
+		if rng.Chance(50) {
+			g.emit(fmt.Sprintf("extend %d %d %d", b, l.id, dur+1+int64(rng.Intn(100))))
+		} else {
+			g.emit(fmt.Sprintf("unlock %d %d -", b, l.id))
+		}
+	}
+	if l, ok := g.pickLock(mine(a, false)); ok && rng.Chance(60) {
+		g.emit(fmt.Sprintf("unlock %d %d -", a, l.id))
+	}
+	if rng.Chance(40) {
+		g.genRestart() // twice in a row: the rebuilt store is exported again
+	}
+	for i := 0; i < 6 && h.f.Height < 7; i++ {
+		g.emit("end")
+		g.emit("begin 1")
+	}
+	g.emit("end")
+	g.emit(fmt.Sprintf("begin %d", dur))
+	g.emit("end")
+}
+
 func (g *c14Gen) trace(n int) {
 	h, rng := g.h, g.rng
 	nA, nD := 2+rng.Intn(3), 1+rng.Intn(3)
@@ -1103,9 +1446,19 @@ func (g *c14Gen) trace(n int) {
 			g.emit("begin 1")
 		}
 	}
+	if rng.Chance(c14DirectedPct) {
+		g.directed()
+	}
 	for i := 0; i < n; i++ {
 		x := rng.Intn(100)
 		nl := len(h.snap.ids)
+		if y := rng.Intn(1000); y < c14RestartPerMille {
+			g.genRestart()
+			continue
+		} else if y < c14RestartPerMille+c14SetParamsPerMille {
+			g.genSetParams()
+			continue
+		}
 		switch {
 		case x < 30 || nl == 0 && x < 70:
 			g.genLock()
@@ -1123,6 +1476,26 @@ func (g *c14Gen) trace(n int) {
 	h.finishTrace()
 }
 
+// c14Fixed: directed histories run first on every seed (whatever the random generator then picks):
+//  1. two locks of two owners sharing denom AND duration -> restart (the per-(denom, duration) entry of
+//     InitializeAllLocks has to hold their sum) -> top-up, extend, begin-unlock, maturity on the imported chain;
+//  2. a full and a partial begin-unlock, half the period elapses, restart while unlocking, a second
+//     restart, then both mature at their old end times;
+//  3. params mid-history: an allow-listed owner force-unlocks, is taken off the list (refused), the
+//     minimum is raised above an existing lock (top-up refused, begin-unlock accepted, paid out), then a
+//     restart: default params (nobody may force-unlock, minimum 0, fee 5*10^16).
+const c14FixedProbes = "0,1,2,6,10,11,20,21,1000000000,86400000000000"
+
+var c14Fixed = [][]string{
+	{"reset 5 1000 - 3 1 0 " + c14FixedProbes, "fund 0 0 106000", "fund 1 0 106000", "lock 0 0 309 6", "lock 1 0 661 6", "restart",
+		"end", "setparams 5 1000 -", "lock 0 0 11 6", "extend 1 2 20", "unlock 0 1 -", "end", "begin 1", "end", "begin 1", "end", "begin 1", "end", "begin 1", "end", "begin 1", "end", "begin 6", "end"},
+	{"reset 0 7 - 2 2 0 " + c14FixedProbes, "fund 0 0 100000", "fund 1 0 1000", "fund 0 1 5000", "fund 1 1 5000", "lock 0 1 1000 20", "lock 1 1 500 20", "lock 0 0 300 10",
+		"unlock 0 1 1 400", "unlock 1 2 -", "end", "begin 10", "restart", "end", "begin 1", "restart", "setparams 0 7 -", "lock 0 1 50 20", "end", "begin 1", "end", "begin 1", "end", "begin 1", "end", "begin 7", "end"},
+	{"reset 5 7 1 2 1 0 " + c14FixedProbes, "fund 0 0 200000000000000000", "fund 1 0 100000", "lock 1 0 1000 10", "lock 0 0 2000 10", "force 1 1 0 100",
+		"setparams 5 7 -", "force 1 1 -", "setparams 100 7 0", "lock 1 0 5 10", "unlock 1 1 -", "force 0 2 0 500", "end", "begin 1", "end", "begin 1", "end", "begin 1", "end", "begin 1", "end", "begin 1", "end", "begin 10", "end",
+		"restart", "force 0 2 -", "lock 0 0 100 4", "unlock 0 2 0 700", "end", "begin 10", "end"},
+}
+
 func TestC14(t *testing.T) {
 	r := NewRun(t, "C14")
 	defer r.Close()
@@ -1136,6 +1509,13 @@ func TestC14(t *testing.T) {
 		}
 		h.finishTrace()
 		return
+	}
+	for _, tr := range c14Fixed {
+		for _, l := range tr {
+			r.Emit(l, h.exec(l))
+		}
+		r.Hit("fixed/directed-trace")
+		h.finishTrace()
 	}
 	nTraces := r.N(300, 3600)
 	for i := 0; i < nTraces; i++ {
